@@ -286,9 +286,20 @@ def gen_data(rs, kind, n):
         x = rs.choice([x0, x1, x2], n)
         x[:3] = [x0, x1, x2]
         return x
+    # --- few distinct values (non-constant!): flags, price points, small enumerations
+    if kind in FEW_KINDS:
+        vals = {'two-balanced': [0.0, 1.0], 'two-95-5': [0.0, 1.0], 'two-prices': [9.99, 14.5], 'three': [1.0, 2.0, 5.0],
+                'five': [0.5, 1.0, 1.5, 3.0, 4.0]}[kind]
+        pr = [0.95, 0.05] if kind == 'two-95-5' else None
+        x = rs.choice(vals, n, p=pr)
+        x[:len(vals)] = vals                     # every value occurs (the 5% one at least once, then topped up)
+        if kind == 'two-95-5':
+            x[len(vals):len(vals) + 2] = vals[1]
+        return rs.permutation(x)
     raise ValueError(kind)
 
 
+FEW_KINDS = ('two-balanced', 'two-95-5', 'two-prices', 'three', 'five')
 REL_KINDS = ('epoch', 'offset1', 'nano', 'bigoffset', 'ulps')
 
 
@@ -327,6 +338,17 @@ def uni_specs(ctx, n_random, deep=False):
         if name == 'GaussianKDE':
             continue
         for kind in (REL_KINDS if deep else rng.sample(REL_KINDS, 2)):
+            add(name, {}, gen_data(rs, kind, nrel()), kind)
+    # few distinct values (non-constant!): every kind for the KDE and wrappers that select it, and for every other
+    # family's constant detection (families whose fit refuses such data are counted as fit-raised)
+    for kind in FEW_KINDS:
+        add('GaussianKDE', {}, gen_data(rs, kind, nrel()), kind)
+    add('Univariate', {'candidates': ['GaussianKDE']}, gen_data(rs, 'two-balanced', nrel()), 'two-balanced')
+    add('Univariate', {'parametric': 'NON_PARAMETRIC'}, gen_data(rs, rng.choice(FEW_KINDS[:3]), nrel()), 'few-wrapper')
+    for name in C:
+        if name == 'GaussianKDE':
+            continue
+        for kind in (FEW_KINDS if deep else ['two-balanced', rng.choice(FEW_KINDS[1:])]):
             add(name, {}, gen_data(rs, kind, nrel()), kind)
     # KDE options
     x = gen_data(rs, 'normal', size())
@@ -855,6 +877,19 @@ def gauss_specs(ctx, n_cases, deep=False):
         kde = C['GaussianKDE'] if variant == 'kde' else Univariate(candidates=[C['GaussianKDE']])
         g = GaussianMultivariate(distribution={'ts': kde, 'len': kde, 'x': C['GaussianUnivariate']})
         out.append((('str', 'dict', ('rel-epoch:' + variant, 'rel-offset1:' + variant, 'GaussianUnivariate'), n), g, df, df))
+    # columns with FEW distinct values (binary flag, 95/5 flag, three levels) modelled by a KDE / a wrapper selecting it
+    for variant in ('kde', 'wrapper') if deep else (rng.choice(['kde', 'wrapper']),):
+        rs = np.random.RandomState(rng.getrandbits(32))
+        n = rng.randint(120, 200) if deep else rng.randint(40, 70)
+        z = rs.normal(size=(n, 4))
+        z[:, 1] += 0.8 * z[:, 0]
+        lvl = np.digitize(z[:, 2], [-0.5, 0.6]).astype(float)
+        flag95 = (z[:, 3] > np.sort(z[:, 3])[int(0.93 * n)]).astype(float)
+        df = pd.DataFrame({'flag': (z[:, 0] > 0).astype(float), 'x': z[:, 1], 'level': lvl, 'rare': flag95})
+        kde = C['GaussianKDE'] if variant == 'kde' else Univariate(candidates=[C['GaussianKDE']])
+        g = GaussianMultivariate(distribution={'flag': kde, 'x': C['GaussianUnivariate'], 'level': kde, 'rare': kde})
+        out.append((('str', 'dict', ('few-two:' + variant, 'GaussianUnivariate', 'few-three:' + variant, 'few-95-5:' + variant), n),
+                    g, df, df))
     # integer labels 0..d-1 in ANOTHER order (a label/position mix-up is silent there), plain Gaussian marginals
     rs = np.random.RandomState(rng.getrandbits(32))
     n = rng.randint(40, 70)
